@@ -102,9 +102,13 @@ def build_coq(clean=False, target=None):
 def property_files(prop):
     """Properties/<prop>.v and its continuation files Properties/<prop><Suffix>.v (suffix starts with a letter or _)."""
     d = os.path.join(COQ, "theories", "Properties")
+    try:
+        off = {os.path.basename(l.strip()) for l in open(os.path.join(COQ, "disabled.txt")) if l.strip() and not l.startswith("#")}
+    except OSError:
+        off = set()
     fs = []
     for f in sorted(os.listdir(d)) if os.path.isdir(d) else []:
-        if re.match(r'^%s([A-Za-z_][A-Za-z0-9_]*)?\.v$' % re.escape(prop), f):
+        if f not in off and re.match(r'^%s([A-Za-z_][A-Za-z0-9_]*)?\.v$' % re.escape(prop), f):
             fs.append(os.path.join(d, f))
     return fs
 
@@ -289,17 +293,24 @@ class Ctx:
     def stream(self, name, harness_cmd, driver_cmd, tags="", extra_args=None, replay_lines=None):
         """Run one generator stream through implementation and model, return mismatches
         as a list of (index, case, model, observed)."""
-        # (re)build what can be built: a broken proof obligation must not stop the correspondence run that
-        # searches for a concrete failing input - extraction only needs the model files
-        build_coq(target="theories/Extract/Extract.vo")
-        ok, out = build_ml()
-        if not ok:
-            self.broken("model-build", "extraction / OCaml build of the model failed", out[-3000:])
-            return None
-        ok, out, binp = build_go(tags)
-        if not ok:
-            self.broken("harness-build", "the Go harness does not build against /repo's working tree", out[-3000:])
-            return None
+        built = getattr(self, "_built", None)
+        if built is None:
+            built = self._built = {}
+        if replay_lines is not None and tags in built:
+            binp = built[tags]        # replays / shrinking inside one run: everything was built by the first call
+        else:
+            # (re)build what can be built: a broken proof obligation must not stop the correspondence run that
+            # searches for a concrete failing input - extraction only needs the model files
+            build_coq(target="theories/Extract/Extract.vo")
+            ok, out = build_ml()
+            if not ok:
+                self.broken("model-build", "extraction / OCaml build of the model failed", out[-3000:])
+                return None
+            ok, out, binp = build_go(tags)
+            if not ok:
+                self.broken("harness-build", "the Go harness does not build against /repo's working tree", out[-3000:])
+                return None
+            built[tags] = binp
         args = [binp, harness_cmd, "-seed", str(self.seed), "-tier", self.tier, "-out", self.dir, "-name", name]
         if extra_args:
             args += extra_args
@@ -404,7 +415,8 @@ class Ctx:
               "coverage": cov, "assumptions": self.assumptions + [
                   "the Gallina model is a hand translation of the Go code; its agreement with the code is established by the differential run reported under coverage.streams, not proved",
               ], "wall_s": round(wall, 2), "violations": len(self.violations)}
-        if write_evidence:
+        if write_evidence and os.environ.get("VERIF_NO_EVIDENCE") != "1" and REPO == "/repo":
+            # evidence is only written by runs against /repo itself (never against a scratch worktree)
             os.makedirs(EVID, exist_ok=True)
             with open(os.path.join(EVID, self.prop + ".json"), "w") as f:
                 json.dump(ev, f, indent=1)
